@@ -25,6 +25,16 @@ def skeletons(rng, n, depth=3):
                         lines.append("else")
                         lines += block(d + 1, in_loop)
                     lines.append("")
+                elif c < 0.68:
+                    # a loop whose condition has a side effect (pops a queue): evaluated once per iteration, no more
+                    qn = "Que" + "".join(chr(97 + int(ch)) for ch in str(next(marker)))
+                    lines.append(f"rock {qn} with 1, 2, 0, 3, 4")
+                    lines.append(rng.choice([f"while roll {qn}", f"until not roll {qn}"]))
+                    lines += block(d + 1, True)
+                    lines.append("")
+                    lines.append(f"say {qn}")
+                    lines.append(f"roll {qn} into Nxt")
+                    lines.append("say Nxt")
                 elif c < 0.8:
                     ctr = "Ctr" + "".join(chr(97 + int(ch)) for ch in str(next(marker)))
                     lines.append(f"put 0 into {ctr}")
@@ -55,6 +65,13 @@ def run(chk):
     # an error in the middle: everything printed before it is preserved, nothing after
     for cond in CONDS:
         cases.append({"src": f"put 1 into X\nrock Q with 1, 0\nsay 1\nif {cond}\nsay 2\nsay Y\nsay 3\n\nsay 4\nsay mysterious is less than true\nsay 5\n", "meta": "error-stops"})
+    # a loop left by break after the body made the condition unevaluable
+    cases.append({"src": "X is 0\nuntil X is greater than 10\nbuild X up\nsay X\nif X is 3\nput true into X\nbreak\n\n\nsay \"done\"\n", "meta": "break, condition unevaluable"})
+    # an output fault in the middle: execution stops at that say
+    faulted = []
+    for c in cases[len(corpus_cases("exec")):len(corpus_cases("exec")) + (60 if quick else 600)]:
+        faulted.append(dict(c, wb=rng.randint(0, 12), meta="write fault"))
+    cases += faulted
     recs = execsuite.run(chk, cases, "cf", suite_name="EXEC-controlflow")
     record_exec(chk, recs, sig=lambda r: (r["impl"].get("debug", "")[:80], r["case"]["src"].count("\nif "), r["case"]["src"].count("while") + r["case"]["src"].count("until")))
     gen = exec_cases(chk, 200 if quick else 2000, focus={"if": 5, "loop": 4, "flow": 2, "say": 6}, salt=44)
